@@ -37,6 +37,41 @@ func c02CheckRoundTrip(c GoCase) *pbt.Violation {
 		return pbt.V("c02.encode.refused:"+refusalClass(res.err), "every value of the documented universe round-trips",
 			"Marshal(%s) refused a documented value: %v", typ, res.err)
 	}
+	// one Encoder used for several values in a row writes the documents back to back (no state carried over)
+	if len(res.out) < 4096 && len(res.out)%3 == 1 {
+		var seq bytes.Buffer
+		var serr error
+		pv, stack := pbt.Try(func() {
+			e := nbt.NewEncoder(&seq)
+			e.NetworkFormat(c.Network)
+			for i := 0; i < 3 && serr == nil; i++ {
+				v := gm.Build(c.TD, c.VD)
+				var arg any = v.Interface()
+				if c.ByPtr {
+					arg = v.Addr().Interface()
+				}
+				serr = e.Encode(arg, string(c.Name))
+			}
+		})
+		if pv != nil {
+			return pbt.V(pbt.PanicKey("nbt.encode", stack), "encoding does not panic", "third Encode on one Encoder (%s) panicked: %v\n%s", typ, pv, stack)
+		}
+		if serr != nil {
+			return pbt.V("c02.encode.seq.refused", "every value of the documented universe round-trips", "one Encoder, several values: %v", serr)
+		}
+		if got, _, n, derr := rn.Decode(seq.Bytes(), c.Network); derr != nil || n*3 != seq.Len() {
+			_ = got
+			return pbt.V("c02.encode.seq", "every value round-trips (also as the 2nd and 3rd document written by one Encoder)",
+				"three Encode calls on one Encoder wrote %d bytes; the first document is %d bytes (reference reader: %v)", seq.Len(), n, derr)
+		}
+		third := seq.Bytes()[seq.Len()/3*2:]
+		a, _, _, e1 := rn.Decode(res.out, c.Network)
+		b, _, _, e2 := rn.Decode(third, c.Network)
+		if e1 == nil && (e2 != nil || rn.Diff(a, b, rn.EqOpts{}) != "") {
+			return pbt.V("c02.encode.seq", "every value round-trips (also as the 2nd and 3rd document written by one Encoder)",
+				"the third document written by one Encoder differs from the first: %s (err %v)", rn.Diff(a, b, rn.EqOpts{}), e2)
+		}
+	}
 	fresh := reflect.New(typ)
 	var name string
 	var err error
